@@ -344,11 +344,13 @@ class Lark(Serialize, Generic[_Return_T]):
                     raise ConfigurationError("cache only works with parser='lalr' for now")
 
                 unhashable = ('transformer', 'postlex', 'lexer_callbacks', 'edit_terminals', '_plugins')
-                options_str = ''.join(k+str(v) for k, v in options.items() if k not in unhashable)
+                options_key = [(k, str(v)) for k, v in options.items() if k not in unhashable]
                 from . import __version__
                 # The same grammar text imports other files when it is loaded from another place,
-                # so the path that relative imports are resolved against is part of the key
-                s = grammar + options_str + __version__ + str(sys.version_info[:2]) + str(relative_import_base_path(self.source_path))
+                # so the path that relative imports are resolved against is part of the key.
+                # repr() of a tuple keeps the parts apart: with plain concatenation, the end of
+                # a grammar text (e.g. a comment) could pass for an option, and vice versa
+                s = repr((grammar, options_key, __version__, sys.version_info[:2], str(relative_import_base_path(self.source_path))))
                 cache_sha256 = sha256_digest(s)
 
                 if isinstance(self.options.cache, str):
